@@ -154,6 +154,23 @@ fn decode(o: &mut Out, st: &ST, owned: &postcard_schema::schema::owned::OwnedDat
     }
     if ss.len() < 20000 && comparable {
         o.case("dynde", &[ss, &hex(input)], &obs);
+        // the schema's F9 classification and the size of what was built, as the model counts it
+        // (C18_allocation_bounded is about exactly these two)
+        let size = match &got {
+            Ok(Ok(v)) => json_size(v).to_string(),
+            _ => "-".to_string(),
+        };
+        o.case("dynbound", &[ss, &hex(input)], &format!("nz={} size={}", !has_zero_width_seq(st) as u8, size));
+    }
+}
+
+/// nodes + string bytes + key bytes (the model's jsize)
+fn json_size(v: &Value) -> usize {
+    match v {
+        Value::String(s) => 1 + s.len(),
+        Value::Array(a) => 1 + a.iter().map(json_size).sum::<usize>(),
+        Value::Object(o) => 1 + o.iter().map(|(k, v)| 1 + k.len() + json_size(v)).sum::<usize>(),
+        _ => 1,
     }
 }
 
